@@ -11,6 +11,8 @@ import Dirk.Model.Scatter
 import Dirk.Model.LockTrace
 import Dirk.Model.Dkg
 import Dirk.Model.Lister
+import Dirk.Model.Transport
+import Dirk.Model.Handler
 import Dirk.Spec.Listing
 
 namespace Driver
@@ -23,6 +25,7 @@ structure DState where
   adminIPs : List String := []
   raw : Db := []
   legacyRegex : Bool := false
+  viaGrpc : Bool := false
   inst : Inst := { cfg := {} }
   -- judge state
   jvotes : List (Bytes × Spec.Vote) := []
@@ -198,6 +201,7 @@ def dstepCore (st : DState) (line : String) : DState × Option String :=
     | some k, some v => ({ st with raw := st.raw.put k v }, none)
     | _, _ => bad st line
   | ["legacyregex"] => ({ st with legacyRegex := true }, none)
+  | ["viagrpc"] => ({ st with viaGrpc := true }, none)
   | ["begin"] =>
     let rx := if st.legacyRegex then regexifyLegacy else regexify
     match compilePerms rx st.perms with
@@ -250,7 +254,8 @@ def dstepCore (st : DState) (line : String) : DState × Option String :=
   | ["att", c, _ip, addr, d, f] =>
     match unhexStr c, parseAddr addr, parseAtt (d.splitOn ","), parseFaults f with
     | some c, some a, some d, some f =>
-      let (s', p) := signAtt st.inst c a d f.f (f.signFail.contains 0)
+      let c := if st.viaGrpc && c.isEmpty then "anonymous-empty" else c
+      let (s', p) := if st.viaGrpc then hSignAtt st.inst c a d f.f (f.signFail.contains 0) else signAtt st.inst c a d f.f (f.signFail.contains 0)
       ({ st with inst := s', lastTrace := traceAtt st.inst c a d ++ (if p.root.isSome then [.sign] else []) }, some (posStr p))
     | _, _, _, _ => bad st line
   | ["atts", c, _ip, f, items] =>
@@ -262,23 +267,29 @@ def dstepCore (st : DState) (line : String) : DState × Option String :=
       | _ => none)
     match unhexStr c, parseFaults f, its with
     | some c, some f, some its =>
-      let (s', ps) := signAtts st.inst c its f.f f.signFail
+      let c := if st.viaGrpc && c.isEmpty then "anonymous-empty" else c
+      let (s', ps) := if st.viaGrpc then hSignAtts st.inst c its f.f f.signFail else signAtts st.inst c its f.f f.signFail
       ({ st with inst := s', lastTrace := traceAtts st.inst c its ++ List.replicate (ps.filter (·.root.isSome)).length .sign }, some (manyStr ps))
     | _, _, _ => bad st line
   | ["atts0", c, _ip] =>
     match unhexStr c with
-    | some c => let (s', ps) := signAtts st.inst c [] {}; ({ st with inst := s' }, some (manyStr ps))
+    | some c =>
+      let (s', ps) := if st.viaGrpc then hSignAtts st.inst c [] {} else signAtts st.inst c [] {}
+      ({ st with inst := s' }, some (manyStr ps))
     | none => bad st line
   | ["prop", c, _ip, addr, d, f] =>
     match unhexStr c, parseAddr addr, parseProp (d.splitOn ","), parseFaults f with
     | some c, some a, some d, some f =>
-      let (s', p) := signProp st.inst c a d f.f (f.signFail.contains 0)
+      let c := if st.viaGrpc && c.isEmpty then "anonymous-empty" else c
+      let (s', p) := if st.viaGrpc then hSignProp st.inst c a d f.f (f.signFail.contains 0) else signProp st.inst c a d f.f (f.signFail.contains 0)
       ({ st with inst := s', lastTrace := traceProp st.inst c a d ++ (if p.root.isSome then [.sign] else []) }, some (posStr p))
     | _, _, _, _ => bad st line
   | ["sign", c, ip, addr, d, f] =>
     match unhexStr c, ipOf ip, parseAddr addr, parseSign (d.splitOn ","), parseFaults f with
     | some c, some ip, some a, some d, some f =>
-      let (s', p) := signGeneric st.inst c ip a d (f.signFail.contains 0)
+      let c := if st.viaGrpc && c.isEmpty then "anonymous-empty" else c
+      let ip := if st.viaGrpc then "127.0.0.1" else ip
+      let (s', p) := if st.viaGrpc then hSignGeneric st.inst c ip a d (f.signFail.contains 0) else signGeneric st.inst c ip a d (f.signFail.contains 0)
       ({ st with inst := s', lastTrace := traceSign st.inst c a d ++ (if p.root.isSome then [.sign] else []) }, some (posStr p))
     | _, _, _, _, _ => bad st line
   | ["msign", c, ip, f, items] =>
@@ -290,7 +301,9 @@ def dstepCore (st : DState) (line : String) : DState × Option String :=
       | _ => none)
     match unhexStr c, ipOf ip, parseFaults f, its with
     | some c, some ip, some f, some its =>
-      let (s', ps) := multisign st.inst c ip its f.signFail
+      let c := if st.viaGrpc && c.isEmpty then "anonymous-empty" else c
+      let ip := if st.viaGrpc then "127.0.0.1" else ip
+      let (s', ps) := if st.viaGrpc then hMultisign st.inst c ip its f.signFail else multisign st.inst c ip its f.signFail
       ({ st with inst := s', lastTrace := traceMsign st.inst c its ++ List.replicate (ps.filter (·.root.isSome)).length .sign }, some (manyStr ps))
     | _, _, _, _ => bad st line
   -- dkg engine
@@ -410,6 +423,26 @@ def dstepCore (st : DState) (line : String) : DState × Option String :=
     match ps with
     | some ps => (st, some (hexOfNat32 (lagrangeAtZero ps)))
     | none => bad st line
+  -- C19: what the transport policy (with the given client-auth mode) does with a credential kind
+  | ["tlsmodel", mode, kind] =>
+    let cfg : Transport.ServerCfg := { clientAuth := mode, credsInstalled := true, clientCAs := true }
+    let cred : Option Transport.Cred :=
+      match kind.splitOn ":" with
+      | ["plaintext"] => some .plaintext
+      | ["tlsnocert"] => some .tlsNoCert
+      | ["selfsigned", cn] => some (.cert false true cn)
+      | ["otherca", cn] => some (.cert false true cn)
+      | ["expired", cn] => some (.cert true false cn)
+      | ["notyetvalid", cn] => some (.cert true false cn)
+      | ["valid", cn] => some (.cert true true cn)
+      | _ => none
+    match cred with
+    | none => bad st line
+    | some cred =>
+      match Transport.serve cfg cred with
+      | none => (st, some "refused")
+      | some none => (st, some "served -")
+      | some (some cn) => (st, some ("served " ++ cn))
   | ["locktrace"] => (st, none)
   | ["nocache"] => (st, none)
   | ["ltrace"] =>
